@@ -45,9 +45,9 @@ type lsPolicy struct {
 
 type lsStats struct {
 	Instrs, Dispatches, Idles, Wakes, HaltBugs, EIPendingBoundaries, Resyncs int
-	PendingAtEI, CondTaken, CondNotTaken                                    int
-	End                                                                     string
-	Ops                                                                     map[string]bool
+	PendingAtEI, CondTaken, CondNotTaken                                     int
+	End                                                                      string
+	Ops                                                                      map[string]bool
 }
 
 var lsTrace = os.Getenv("LS_TRACE") != ""
